@@ -15,7 +15,7 @@ import UBidi.Lemmas.C09Single
 import UBidi.Props.C02
 namespace UBidi.Lemmas.C01Compose
 open UBidi UBidi.BidiClass UBidi.Lemmas.C01Seq UBidi.Lemmas.C01Pure UBidi.Expand
-open UBidi.Props.C02 (raw FSIWidth)
+open UBidi.Props.C02 (raw)
 
 theorem paraLevel_le_one (d : Option Nat) (hd : ∀ l, d = some l → l ≤ 1) (cs : List BidiClass) :
     Spec.paraLevel d cs ≤ 1 := by
@@ -33,7 +33,7 @@ theorem paraLevel_le_one (d : Option Nat) (hd : ∀ l, d = some l → l ≤ 1) (
     (classes after X5c as reported, bracket property from the data source).  Also: the reported
     classes are X5c of the raw classes and the level is P2/P3's (`C02`). -/
 theorem single_para_levels (ds : DataSource) (hweak : WeakInv ds) (t : Text)
-    (hwf : t.WF) (hfsi : FSIWidth ds t) (d : Option Nat) (hd : ∀ l, d = some l → l ≤ 1)
+    (hwf : t.WF) (d : Option Nat) (hd : ∀ l, d = some l → l ≤ 1)
     (hB : ∀ c ∈ (raw ds t).dropLast, c ≠ B) :
     let ii := computeInitialInfo ds t d false
     paraLevels ds ii.lastLevel ii.lastPureLtr ii.lastHasIso t ii.classes =
@@ -43,12 +43,12 @@ theorem single_para_levels (ds : DataSource) (hweak : WeakInv ds) (t : Text)
     ii.lastLevel = Spec.paraLevel d (raw ds t) := by
   intro ii
   have hcon : contract t ii.classes ON = Spec.resolveFSI (raw ds t) :=
-    Props.C02.C02_single_classes ds t d hwf hfsi hB
+    Props.C02.C02_single_classes ds t d hwf hB
   have hlev : ii.lastLevel = Spec.paraLevel d (raw ds t) := Props.C02.C02_single_level ds t d hwf hB
   have hpl : ii.lastLevel ≤ 1 := by rw [hlev]; exact paraLevel_le_one d hd _
   obtain ⟨hf1, hf2⟩ := single_flags ds t d
   have hlen : ii.classes.length = t.len := Props.C02.C02_classes_length ds t d hwf false
-  have hu : UniformOn t ii.classes := Props.C09.classes_uniformOn ds t d hwf hfsi false
+  have hu : UniformOn t ii.classes := Props.C09.classes_uniformOn ds t d hwf false
   have hnb : NoInnerB (contract t ii.classes ON) := by
     rw [hcon]; exact resolveFSI_noInnerB _ hB
   have hpure : ii.lastPureLtr = true → ∀ x ∈ contract t ii.classes ON, pureClass x = true := by
